@@ -17,10 +17,10 @@ import (
 // arrive in chunks, with a scheduling point between the chunks, so that another goroutine's
 // unfolder initialises a value of the same user type while this one waits for its event.
 
-type cuLevel int       // stateful user unfolder: reported by name
-type cuTemp float64    // primitive user unfolder: from a string "12.5C"
+type cuLevel int               // stateful user unfolder: reported by name
+type cuTemp float64            // primitive user unfolder: from a string "12.5C"
 type cuPair struct{ A, B int } // processing user unfolder: from an array [a, b]
-type cuExp int         // Expander: from a decimal string
+type cuExp int                 // Expander: from a decimal string
 
 type cuRecord struct {
 	Name  string
